@@ -748,6 +748,10 @@ func (w *World) verifyFieldWriters(p pkgT, d ImmutableDecl, res *UnitResult) *Un
 				case *ast.AssignStmt:
 					for _, l := range s.Lhs {
 						check(l)
+						// an element write x.f[k] = v into a map- or slice-valued field is a write of the field
+						if ie, ok := ast.Unparen(l).(*ast.IndexExpr); ok {
+							check(ie.X)
+						}
 					}
 				case *ast.IncDecStmt:
 					check(s.X)
